@@ -85,9 +85,14 @@ class GuardRun:
                 # integer texts are parsed by the model itself (Sem/Text.parse_int)
                 return "(from_str_t %s)" % c.arg
             return "(from_str %s)" % (c.oracle if c.oracle else "none")
+        if c.op == "de_json" and c.decl.family() in ("int", "str"):
+            # String and integer documents are read by the model itself (Sem/Json)
+            return "(de_json_t %s)" % c.arg
+        if c.op == "ser_text":
+            return "(ser_json_t %s)" % c.arg
         if c.op in ("de", "de_json", "de_ron", "de_mp", "de_self", "de_seq1"):
             return "(de %s)" % (c.oracle if c.oracle and c.oracle != "-" else "none")
-        if c.op in ("default", "arb_range", "msgs"):
+        if c.op in ("default", "arb_range", "msgs", "arb_decide"):
             return "(%s)" % c.op
         if c.op == "arb":
             return "(arb%s)" % c.arg[2:-1]
